@@ -804,3 +804,42 @@ def tmpl5(I, calls, name):
 import itertools
 register(_mk_eq_val_str(False))
 register(_mk_eq_val_str(True))
+
+
+@register
+class DecideStringQuoting(Contract):
+    """decide_string_quoting: no quote character -> never; no pattern -> always; otherwise the pattern is matched against the text of the
+    value AS IT IS NOW (str(value) - values derived by modifiers, slicing or transformations have no source text of their own), the
+    verdict negated if configured"""
+    id = "C05.TextQueryBackend.decide_string_quoting"
+    target = f"{CB}:TextQueryBackend.decide_string_quoting"
+    props = ("C05", "C01")
+    cases = ("noquote", "nopattern", "pattern", "pattern_negated")
+
+    def args(self, I, case):
+        idx = I.E.index
+        got = {}
+        hit = I.fresh("pattern_matches", "bool")
+
+        def m(I2, a, k):
+            got["text"] = a[0]
+            return SOpt(z3.Not(hit.t), SObj("Match", {}))
+        text, orig = I.fresh("current_text", "str"), I.fresh("source_text", "str")
+        val = SObj(idx.lookup("sigma.types:SigmaString"), {"__str__": NativeFn("__str__", lambda I2, a, k: text), "original": orig}, lazy=True)
+        me = SObj(idx.lookup(f"{CB}:TextQueryBackend"), {"str_quote": "" if case == "noquote" else '"', "str_quote_pattern": None if case in ("noquote", "nopattern") else SObj("Pattern", {"match": NativeFn("match", m)}),
+                                                        "str_quote_pattern_negation": case == "pattern_negated"}, lazy=True)
+        return {"self": me, "args": [val], "got": got, "hit": hit, "text": text, "case": case}
+
+    def post(self, I, inp, r):
+        case = inp["case"]
+        t = ops.truth(I, r)
+        if case == "noquote":
+            I.ctx.require(t is False, "without quote character nothing is quoted")
+        elif case == "nopattern":
+            I.ctx.require(t is True, "without pattern everything is quoted")
+        else:
+            I.ctx.require(inp["got"].get("text") is inp["text"], "the pattern is matched against the current text of the value (str(value))")
+            I.ctx.require(ops.mk_bool_term(t) == (z3.Not(inp["hit"].t) if case == "pattern_negated" else inp["hit"].t), "quoted iff the pattern matches (iff it does not, with negation)")
+
+    def frame_ok(self, I, inp, obj, name):
+        return False
